@@ -197,6 +197,7 @@ func main() {
 	n := fs.Int("n", 0, "number of random cases (0 = tier default)")
 	file := fs.String("file", "", "replay: file with case lines")
 	fs.StringVar(&corpusDir, "corpus", "", "directory with <suite>.txt corpus files")
+	fs.StringVar(&repoDir, "repo", "/repo", "source tree under test (for its data files)")
 	fs.Parse(os.Args[2:])
 	switch cmd {
 	case "list":
